@@ -259,6 +259,56 @@ func init() {
 			}}
 	})
 
+	// as stale-suffix, but the first thing the new leader commits in its term (after the no-op, which the FSM never
+	// sees) is a configuration entry, and the snapshot is taken right after it: the snapshot's (index, term) must
+	// still be a position of the log, because the next AppendEntries to the deposed leader uses it as prev entry
+	regScenario("stale-suffix-config", func() *Scenario {
+		sc := scenarioByName("stale-suffix")
+		sc.Nodes = append(voters(3), NodeSpec{Suffrage: raft.Nonvoter, StartUp: true})
+		var steps []Step
+		for _, st := range sc.Steps {
+			switch st.Name {
+			case "apply-new-leader":
+				st.Name = "add-nonvoter-new-leader"
+				st.Do = func(w *World) { w.addNonvoter(w.leader(), 3, 0) }
+			case "apply-new-leader2":
+				continue
+			case "snapshot-new-leader":
+				inner := st.When
+				st.When = func(w *World) bool {
+					for _, c := range w.calls {
+						if c.Kind == "addnonvoter" && !c.Done {
+							return false
+						}
+					}
+					return inner(w)
+				}
+			}
+			steps = append(steps, st)
+		}
+		sc.Steps = steps
+		sc.Horizon = 800
+		return sc
+	})
+	// a membership change is requested from a new leader before its no-op is committed (it must wait)
+	regScenario("member-early", func() *Scenario {
+		ns := append(voters(3), NodeSpec{Suffrage: raft.Nonvoter, StartUp: true})
+		return &Scenario{Nodes: ns, Devs: DevAll, Horizon: 600, Goal: func(w *World) bool { return w.vals["asked"] == 1 && w.converged() },
+			Steps: []Step{
+				stepApplyLeader("apply1"),
+				stepDo("crash-leader", whenSettled, func(w *World) { l := w.leader(); w.vals["old"] = l.id; w.crash(l) }),
+				urgent(stepDo("add-nonvoter-on-new-leader-at-once", func(w *World) bool {
+					l := w.leader()
+					return l != nil && l.id != w.vals["old"]
+				}, func(w *World) {
+					w.addNonvoter(w.leader(), 3, 0)
+					w.vals["asked"] = 1
+				})),
+				stepDo("restart-old", whenSettled, func(w *World) { w.start(w.nodes[w.vals["old"]]) }),
+				stepApplyLeader("apply2"),
+			}}
+	})
+
 	// membership: 1 voter -> +nonvoter -> promote -> +voter -> demote -> remove -> leader removes itself
 	regScenario("member", func() *Scenario {
 		ns := []NodeSpec{{Suffrage: raft.Voter, InBootstrap: true, StartUp: true}, {Suffrage: raft.Voter, StartUp: true}, {Suffrage: raft.Voter, StartUp: true}}
